@@ -1,6 +1,6 @@
 """Build step shared by every check: impl_run from /repo's working tree (hooks on), the registry dump,
 the generated Coq facts, the Coq development, the extracted model runner. Serialised by a file lock."""
-import fcntl, hashlib, os, re, subprocess, sys, time
+import fcntl, hashlib, json, os, re, subprocess, sys, time
 
 VERIF = os.path.dirname(os.path.dirname(os.path.abspath(__file__)))
 REPO = os.environ.get("VERIF_REPO", "/repo")
@@ -294,3 +294,28 @@ def ensure_built(release=False, log=None):
         ocaml_build()
         rc2, out2 = coq_make()
         return {"coq_ok": rc2 == 0, "coq_log": out2, "build_s": time.time() - t0}
+
+
+# ---------- the tree this development was last validated against (all checks, all seeds, thorough runs): file -> sha256
+def _source_files():
+    out = [os.path.join(REPO, "Cargo.toml"), os.path.join(REPO, "Cargo.lock")]
+    sd = os.path.join(REPO, "src")
+    for root, _d, files in os.walk(sd):
+        for f in sorted(files):
+            if f.endswith(".rs"): out.append(os.path.join(root, f))
+    return out
+
+def source_hashes():
+    import hashlib
+    res = {}
+    for f in _source_files():
+        try: res[os.path.relpath(f, REPO)] = hashlib.sha256(open(f, "rb").read()).hexdigest()
+        except OSError: pass
+    return res
+
+def source_changed():
+    """files of /repo whose content differs from pinned_source.json (added, removed or edited); empty on the pinned tree"""
+    try: pinned = json.load(open(os.path.join(VERIF, "pinned_source.json")))["files"]
+    except Exception: return set()
+    now = source_hashes()
+    return {f for f in set(pinned) | set(now) if pinned.get(f) != now.get(f)}
